@@ -71,8 +71,10 @@ def gen_case(rng):
     bad = None
     if ak == "bad-price":
         bad = rng.choice(["nan", "zero"])
+    # the security may sit in a sleeve (sub-strategy) that has its own commission schedule, different from the root's
+    nested = rng.random() < 0.2
     return {"price": price, "mult": mult, "integer": integer, "pos": pos, "comm": comm, "bidoffer": bo, "amount": amount,
-            "amount_class": ak, "bad": bad, "grid": grid}
+            "amount_class": ak, "bad": bad, "grid": grid, "nested": nested}
 
 
 def build(bt, case):
@@ -86,22 +88,32 @@ def build(bt, case):
         p1 = 0.0
     data = pd.DataFrame({"x": [case["price"], p1]}, index=dates)
     sec = c.Security("x", multiplier=case["mult"])
-    root = c.StrategyBase("p", children=[sec])
-    root.use_integer_positions(case["integer"])
-    root.set_commissions(E.make_comm(*case["comm"]))
+    if case.get("nested"):
+        sleeve = c.StrategyBase("sl", children=[sec])
+        root = c.StrategyBase("p", children=[sleeve])
+        root.use_integer_positions(case["integer"])
+        root.set_commissions(E.make_comm(1, 7.0, 0))          # the root charges a flat 7 ...
+        root.children["sl"].set_commissions(E.make_comm(*case["comm"]))   # ... the sleeve has its own schedule
+    else:
+        root = c.StrategyBase("p", children=[sec])
+        root.use_integer_positions(case["integer"])
+        root.set_commissions(E.make_comm(*case["comm"]))
     kw = {}
     if case["bidoffer"] is not None:
         kw["bidoffer"] = pd.DataFrame({"x": [case["bidoffer"]] * 2}, index=dates)
     root.setup(data, **kw)
     root.adjust(1e9)
     root.update(dates[0])
-    sec = root.children["x"]
+    holder = root.children["sl"] if case.get("nested") else root
+    if case.get("nested"):
+        root.allocate(5e8, "sl")
+    sec = holder.children["x"]
     if case["pos"] != 0:
         # build the position at zero cost: swap the commission in afterwards
-        fn = root.commission_fn
-        root.commission_fn = E.make_comm(0, 0, 0)
+        fn = holder.commission_fn
+        holder.commission_fn = E.make_comm(0, 0, 0)
         sec.transact(case["pos"])
-        root.commission_fn = fn
+        holder.commission_fn = fn
     root.update(dates[0])
     if case["bad"] is None or case["pos"] == 0:
         root.update(dates[1])
@@ -129,7 +141,7 @@ def run_case(ctx, bt, case, collect):
     pos0 = sec._position
     price = sec._price
     val0 = sec._value
-    op = {"op": "allocate", "path": [0], "amount": amount, "update": True}
+    op = {"op": "allocate", "path": [0, 0] if case.get("nested") else [0], "amount": amount, "update": True}
     err = None
     try:
         sec.allocate(amount)
